@@ -4,7 +4,7 @@
    the LF-hack fix, at whether the text before that piece ends with a CR: then the LF is left alone). *)
 From Coq Require Import String.
 From Coq Require Import List NArith Lia Bool.
-From Wbxml Require Import Model.TablesDefs Model.Tables Model.Codec Model.LangSelect Model.EncWbxml Model.XmlFront.
+From Wbxml Require Import Model.TablesDefs Model.Tables Model.Codec Model.LangSelect Model.EncWbxml Model.XmlFront Model.XmlFrontLfOld.
 From Wbxml Require Import Gen.TablesData.
 From Wbxml Require Import Proofs.XmlFrontProofs Proofs.XmlFrontDataType.
 Import ListNotations.
@@ -262,6 +262,33 @@ Section Split.
     rewrite !run_app. rewrite (text_split_run _ p pieces NE IN NL). reflexivity.
   Qed.
 
+  (* the repair: a lone LF piece after a text that ends with a CR is left alone — the two pieces are the one text
+     "...CR LF", which the hack does not touch *)
+  Theorem lone_lf_after_cr c a :
+    ends_cr a = true -> in_element c ->
+    step (step c (EvCharacters a)) (EvCharacters [10]) = step c (EvCharacters (a ++ [10])).
+  Proof.
+    intros EA IN. assert (NA : a <> []) by (intros ->; discriminate).
+    apply (text_split_step c a [10] NA); [discriminate|exact IN|].
+    unfold lone_lf_hack. destruct (syncml_data_type (c_spine c)); [|tauto]. intros (_ & [(A & _)|(_ & B)]).
+    - subst a. discriminate.
+    - rewrite EA in B. discriminate.
+  Qed.
+
+  (* and that text is stored as it is: exactly CR LF, no second CR *)
+  Theorem lone_lf_after_cr_stored c f up d a :
+    c_error c = WBXML_OK -> c_skip_lvl c = 0 -> c_spine c = f :: up -> syncml_data_type (f :: up) = Some d -> ends_cr a = true ->
+    step (step c (EvCharacters a)) (EvCharacters [10]) =
+    if dt_wants_cdata d && negb (is_cdata_frame f) && negb (first_kid_is_cdata f)
+    then set_spine c (store (mk_frame FCData []) (a ++ [10]) :: f :: up)
+    else set_spine c (store f (a ++ [10]) :: up).
+  Proof.
+    intros E K S DT EA. rewrite (lone_lf_after_cr c a EA) by (intros _ _; rewrite S; discriminate).
+    rewrite (on_characters_normal main sub input c f up d (a ++ [10]) E K S DT).
+    assert (H : lf_hack d (prev_ends_cr (f :: up)) (a ++ [10]) = a ++ [10]).
+    { apply lf_hack_same. intros _ X. destruct a as [|x [|y r]]; discriminate. }
+    now rewrite H.
+  Qed.
 End Split.
 
 Local Open Scope string_scope.
@@ -279,3 +306,20 @@ Proof. vm_compute. discriminate. Qed.
 Example lone_lf_differs_is_ok :
   exists t, tree_from_xml main_table (fun _ => inr 104) [60] (lf_pre ++ [EvCharacters [65]; EvCharacters [10]] ++ lf_post) true = inl t.
 Proof. eexists. vm_compute. reflexivity. Qed.
+
+(* the defect and its repair on a vCard: "BEGIN:VCARD&#13;&#10;" comes from Expat as three pieces *)
+Definition cr_lf_pieces : list event := [EvCharacters (bs "BEGIN:VCARD"); EvCharacters [13]; EvCharacters [10]].
+Example lone_lf_fixed_vcard :
+  tree_from_xml main_table (fun _ => inr 104) [60] ((lf_pre ++ cr_lf_pieces ++ lf_post)%list) true =
+  tree_from_xml main_table (fun _ => inr 104) [60] (lf_pre ++ [EvCharacters ((bs "BEGIN:VCARD" ++ [13; 10])%list)] ++ lf_post) true.
+Proof. vm_compute. reflexivity. Qed.
+(* before the fix (Model/XmlFrontLfOld.v): a second CR *)
+Example lone_lf_old_witness :
+  tree_from_xml_old main_table (fun _ => inr 104) [60] ((lf_pre ++ cr_lf_pieces ++ lf_post)%list) true =
+  tree_from_xml main_table (fun _ => inr 104) [60] (lf_pre ++ [EvCharacters ((bs "BEGIN:VCARD" ++ [13; 13; 10])%list)] ++ lf_post) true.
+Proof. vm_compute. reflexivity. Qed.
+(* CR LF in one event: the hack never touched it *)
+Example cr_lf_one_event_untouched :
+  tree_from_xml_old main_table (fun _ => inr 104) [60] (lf_pre ++ [EvCharacters ((bs "BEGIN:VCARD" ++ [13; 10])%list)] ++ lf_post) true =
+  tree_from_xml main_table (fun _ => inr 104) [60] (lf_pre ++ [EvCharacters ((bs "BEGIN:VCARD" ++ [13; 10])%list)] ++ lf_post) true.
+Proof. vm_compute. reflexivity. Qed.
